@@ -169,7 +169,7 @@ pub fn run(env: &Env) -> i32 {
         ..HistProfile::default()
     };
     let rounds = env.tier.pick(4, 12);
-    let n = env.cases(2500, 60000);
+    let n = env.cases(8000, 60000);
     let r = run_cases(
         env,
         1,
